@@ -74,6 +74,18 @@ def prepare(case, seed=None, defaults=False):
     return data, qs, qk, cand
 
 
+def styled_args(case, data):
+    """X and y in the container / dtype the case asks for (array-likes are
+    documented everywhere; results must not depend on the container)."""
+    style = case.get("opts", {}).get("arg_style", "ndarray")
+    X, y = data["X"].copy(), data["y"].copy()
+    if style == "list":
+        return X.tolist(), y.tolist()
+    if style == "int_X" and np.all(X == np.round(X)):
+        return X.astype(int), y
+    return X, y
+
+
 def run_query(case, return_utilities, seed=None, defaults=False,
               batch_size=None, prepared=None):
     """-> (ok, result_or_exception, ctx)"""
@@ -82,8 +94,19 @@ def run_query(case, return_utilities, seed=None, defaults=False,
     kwargs = dict(qk)
     kwargs.update(candidates=cand, batch_size=bs,
                   return_utilities=return_utilities)
-    ok, res = guarded(qs.query, data["X"].copy(), data["y"].copy(),
-                      **kwargs)
+    X_arg, y_arg = styled_args(case, data)
+    if isinstance(kwargs.get("candidates"), np.ndarray) and \
+            case.get("opts", {}).get("arg_style") == "list":
+        kwargs["candidates"] = kwargs["candidates"].tolist()
+    cnd = kwargs.get("candidates")
+    if (isinstance(X_arg, np.ndarray) and X_arg.dtype.kind == "i"
+            and isinstance(cnd, np.ndarray) and cnd.ndim == 2
+            and np.all(cnd == np.round(cnd))):
+        # feature-row candidates of an integer-typed pool are integer-typed
+        # as well (third-party estimators, e.g. scikit-learn's mixture
+        # score_samples, are not dtype-invariant)
+        kwargs["candidates"] = cnd.astype(int)
+    ok, res = guarded(qs.query, X_arg, y_arg, **kwargs)
     ctx = dict(data=data, qs=qs, qk=qk, cand=cand)
     return ok, res, ctx
 
